@@ -38,14 +38,14 @@ may::coroutine_local!(static GONE: std::cell::RefCell<Option<SetOnDrop>> = std::
 /// to be called first thing in every coroutine body
 pub fn track_gone(gone: &Arc<Mutex<Vec<Arc<AtomicBool>>>>) {
     let f = Arc::new(AtomicBool::new(false));
-    gone.lock().unwrap().push(f.clone());
+    gone.lock().unwrap_or_else(|e| e.into_inner()).push(f.clone());
     GONE.with(|g| *g.borrow_mut() = Some(SetOnDrop(f)));
 }
 
 /// wait until every tracked coroutine has been destroyed (the watchdog bounds the wait)
 pub fn wait_gone(gone: &Arc<Mutex<Vec<Arc<AtomicBool>>>>) {
     loop {
-        if gone.lock().unwrap().iter().all(|f| f.load(Ordering::SeqCst)) {
+        if gone.lock().unwrap_or_else(|e| e.into_inner()).iter().all(|f| f.load(Ordering::SeqCst)) {
             return;
         }
         std::thread::sleep(Duration::from_micros(50));
@@ -58,7 +58,7 @@ fn is_done(h: &JoinHandle<usize>, tgt: u64, fin: &AtomicBool, fails: &Fails) -> 
     let f = fin.load(Ordering::SeqCst);
     ret("join.is_done", r as u64);
     if r && !f {
-        fails.lock().unwrap().push(format!("is_done() of c{tgt} returned true before the body had finished"));
+        fails.lock().unwrap_or_else(|e| e.into_inner()).push(format!("is_done() of c{tgt} returned true before the body had finished"));
     }
     r
 }
@@ -69,7 +69,7 @@ fn wait(h: &JoinHandle<usize>, tgt: u64, fin: &AtomicBool, fails: &Fails) {
     let f = fin.load(Ordering::SeqCst);
     ret("join.wait", 0);
     if !f {
-        fails.lock().unwrap().push(format!("wait() on c{tgt} returned before the body had finished"));
+        fails.lock().unwrap_or_else(|e| e.into_inner()).push(format!("wait() on c{tgt} returned before the body had finished"));
     }
 }
 
@@ -87,10 +87,10 @@ fn join(h: JoinHandle<usize>, tgt: u64, fin: &AtomicBool, expect: u64, fails: &F
     };
     ret("join.join", code);
     if !f {
-        fails.lock().unwrap().push(format!("join() of c{tgt} returned before the body had finished"));
+        fails.lock().unwrap_or_else(|e| e.into_inner()).push(format!("join() of c{tgt} returned before the body had finished"));
     }
     if code != expect {
-        fails.lock().unwrap().push(format!("join() returned a wrong result: c{tgt} gave {code}, expected {expect}"));
+        fails.lock().unwrap_or_else(|e| e.into_inner()).push(format!("join() returned a wrong result: c{tgt} gave {code}, expected {expect}"));
     }
 }
 
@@ -135,7 +135,7 @@ fn run_prog(p: &Prog, h: &JoinHandle<usize>, fin: &AtomicBool, fails: &Fails, in
     if p.wait == 2 || (p.wait == 1 && seen) {
         wait(h, 1, fin, fails);
         if !is_done(h, 1, fin, fails) {
-            fails.lock().unwrap().push("is_done() false after wait() returned".into());
+            fails.lock().unwrap_or_else(|e| e.into_inner()).push("is_done() false after wait() returned".into());
         }
     }
 }
@@ -305,7 +305,7 @@ pub fn build(rng: &mut Rng, tier: u32) -> LiveBuilt {
                 ret("join.join", code);
                 let want = if completed.load(Ordering::SeqCst) { 0 } else { 9999 };
                 if code != want {
-                    fails.lock().unwrap().push(format!(
+                    fails.lock().unwrap_or_else(|e| e.into_inner()).push(format!(
                         "the handle of the cancelled joiner reported a wrong result: c2 gave {code}, expected {want} (reached its end: {})",
                         want == 0
                     ));
@@ -315,7 +315,7 @@ pub fn build(rng: &mut Rng, tier: u32) -> LiveBuilt {
                 if let Some(h) = shared {
                     match Arc::try_unwrap(h) {
                         Ok(h) => join(h, 1, &fin, expect, &fails),
-                        Err(_) => fails.lock().unwrap().push("handle still shared at the end".into()),
+                        Err(_) => fails.lock().unwrap_or_else(|e| e.into_inner()).push("handle still shared at the end".into()),
                     }
                 }
                 // nobody may be left who joins the target (its handle died with the cancelled joiner): wait for its
@@ -326,7 +326,7 @@ pub fn build(rng: &mut Rng, tier: u32) -> LiveBuilt {
                 std::thread::sleep(Duration::from_micros(50));
                 wait_gone(&gone);
                 if result.load(Ordering::SeqCst) != v as usize || !fin.load(Ordering::SeqCst) {
-                    fails.lock().unwrap().push("the target did not finish with its value after its joiner was cancelled".into());
+                    fails.lock().unwrap_or_else(|e| e.into_inner()).push("the target did not finish with its value after its joiner was cancelled".into());
                 }
             } else if njoin == 1 && owner_joins_directly {
                 // the owner of the handle polls / waits and then joins, racing with the finish
@@ -401,7 +401,7 @@ pub fn build(rng: &mut Rng, tier: u32) -> LiveBuilt {
                 // everybody else is done with the handle: the owner joins
                 match Arc::try_unwrap(h) {
                     Ok(h) => join(h, 1, &fin, expect, &fails),
-                    Err(_) => fails.lock().unwrap().push("handle still shared at the end".into()),
+                    Err(_) => fails.lock().unwrap_or_else(|e| e.into_inner()).push("handle still shared at the end".into()),
                 }
             }
             if let Some(c) = canceller {
@@ -409,9 +409,9 @@ pub fn build(rng: &mut Rng, tier: u32) -> LiveBuilt {
             }
             wait_gone(&gone);
             if ran.load(Ordering::SeqCst) != 1 {
-                fails.lock().unwrap().push(format!("body of c1 ran {} times", ran.load(Ordering::SeqCst)));
+                fails.lock().unwrap_or_else(|e| e.into_inner()).push(format!("body of c1 ran {} times", ran.load(Ordering::SeqCst)));
             }
-            let r = fails.lock().unwrap().clone();
+            let r = fails.lock().unwrap_or_else(|e| e.into_inner()).clone();
             r
         }),
     }
